@@ -121,9 +121,17 @@ def bounded(ctx):
                 if o in ovs or gen.rc(o) in ovs or gen.rc(o) == o:
                     continue
                 ovs.append(o)
-            targets = [ba.clean(rng, rng.randint(2, 8), e) for _ in range(chain_len)]
-            texts = [ba.build_module(e, ovs[i], targets[i], ovs[i + 1], rng) for i in range(chain_len)]
+            targets, texts = [], []
+            for i in range(chain_len):
+                text = None
+                while text is None:
+                    t_ = ba.clean(rng, rng.randint(2, 8), e)
+                    text = ba.build_module(e, ovs[i], t_, ovs[i + 1], rng)
+                targets.append(t_)
+                texts.append(text)
             vtext, vfrag = ba.build_vector(e, ovs[chain_len], ovs[0], rng)
+            if vtext is None:
+                continue
             vec = Vec(CircularRecord(Seq(ba.rotate(vtext, rng.randrange(len(vtext)))), id="v"))
             mods = [Mod(CircularRecord(Seq(ba.rotate(t_, rng.randrange(len(t_)))), id="m%d" % i)) for i, t_ in enumerate(texts)]
             got0, prod0, _ = ba.run_assembly(vec, mods)
@@ -134,8 +142,10 @@ def bounded(ctx):
             for j in range(chain_len):
                 for newlen in (2, 5, 11):
                     evals += 1
-                    nt = ba.clean(rng, newlen, e)
-                    ntext = ba.build_module(e, ovs[j], nt, ovs[j + 1], rng, backbone=rng.randint(3, 15))
+                    ntext = None
+                    while ntext is None:
+                        nt = ba.clean(rng, newlen, e)
+                        ntext = ba.build_module(e, ovs[j], nt, ovs[j + 1], rng, backbone=rng.randint(3, 15))
                     repl = Mod(CircularRecord(Seq(ba.rotate(ntext, rng.randrange(len(ntext)))), id="r"))
                     ms = list(mods)
                     ms[j] = repl
